@@ -7,6 +7,8 @@ import VaxisModel.Lemmas.TextInputCells
 import VaxisModel.Lemmas.EditorCl
 import VaxisModel.Lemmas.TextInputCl
 import VaxisModel.Gen.EditorKeys
+import VaxisModel.Gen.EditorBodies
+import VaxisModel.Lemmas.EditorBodies
 
 /-! C17 — line editors behave like an ideal grapheme line editor.
 
@@ -300,6 +302,31 @@ theorem draw_loop_extracted :
 each calls first) is the one `TextField.handleKey` transcribes. -/
 theorem handle_event_bindings_extracted :
     Gen.EditorKeys.handleEventBindings = handleEventTable := by decide
+
+/-- The state updates of every TextField function (writes to `tf.Value`, `tf.cursor`, `tf.n`, receiver calls, returns) and its loops in full, extracted from textfield.go on every run, are the ones the models transcribe (`Lemmas.EditorBodies`): e.g. the recount `tf.n = graphemeCountInString(tf.Value)` after each deletion (F46) and `tf.cursor = graphemeCountInString(next.String())` between the two writes of the insert (F217). -/
+theorem facts_textfield_bodies :
+    Gen.EditorBodies.tfHandleEvent = Lemmas.EditorBodies.tfHandleEvent ∧
+    Gen.EditorBodies.tfCheckChanged = Lemmas.EditorBodies.tfCheckChanged ∧
+    Gen.EditorBodies.tfReset = Lemmas.EditorBodies.tfReset ∧
+    Gen.EditorBodies.tfInsertStringAtCursor = Lemmas.EditorBodies.tfInsertStringAtCursor ∧
+    Gen.EditorBodies.tfCursorTo = Lemmas.EditorBodies.tfCursorTo ∧
+    Gen.EditorBodies.tfDeleteCharRightOfCursor = Lemmas.EditorBodies.tfDeleteCharRightOfCursor ∧
+    Gen.EditorBodies.tfDeleteCharLeftOfCursor = Lemmas.EditorBodies.tfDeleteCharLeftOfCursor ∧
+    Gen.EditorBodies.tfDeleteCursorToEndOfLine = Lemmas.EditorBodies.tfDeleteCursorToEndOfLine ∧
+    Gen.EditorBodies.tfDraw = Lemmas.EditorBodies.tfDraw ∧
+    Gen.EditorBodies.tfInsertLoop = Lemmas.EditorBodies.tfInsertLoop ∧
+    Gen.EditorBodies.tfGraphemeCount = Lemmas.EditorBodies.tfGraphemeCount := by
+  decide +kernel
+
+/-- The same for textinput: `SetContent`, every arm of `Update` with its loops, the final clamping followed by `m.resegment()` (F317), `resegment`, `Draw` with its prompt loop, scroll loop (F47, F117) and cell loop, `isAlphaNumeric`, `widthToCursor`. -/
+theorem facts_textinput_bodies :
+    Gen.EditorBodies.tiSetContent = Lemmas.EditorBodies.tiSetContent ∧
+    Gen.EditorBodies.tiUpdate = Lemmas.EditorBodies.tiUpdate ∧
+    Gen.EditorBodies.tiResegment = Lemmas.EditorBodies.tiResegment ∧
+    Gen.EditorBodies.tiDraw = Lemmas.EditorBodies.tiDraw ∧
+    Gen.EditorBodies.tiIsAlphaNumeric = Lemmas.EditorBodies.tiIsAlphaNumeric ∧
+    Gen.EditorBodies.tiWidthToCursor = Lemmas.EditorBodies.tiWidthToCursor := by
+  decide +kernel
 
 /-- Non-vacuity: "ab cd" + Ctrl+w deletes the last word; a 4-column window draws. -/
 example :
